@@ -38,6 +38,10 @@ pub struct NetCase {
     /// before reading any reply (count, value length); 0 = off
     #[serde(default)]
     pub late_reader: (u8, u32),
+    /// after every segment wait for the replies to all requests that have been sent completely
+    /// (so a reply is awaited while the first bytes of the next request are already out)
+    #[serde(default)]
+    pub sync_each_segment: bool,
 }
 
 pub fn net_key_strategy() -> BoxedStrategy<String> {
@@ -74,8 +78,9 @@ fn strategy(tier: Tier) -> BoxedStrategy<NetCase> {
         1u8..=30,
         any::<bool>(),
         prop_oneof![3 => Just((0u8, 0u32)), 1 => (40u8..140, prop_oneof![60_000u32..70_000, 8_192u32..9_000, 200_000u32..300_000])],
+        prop_oneof![2 => Just(false), 1 => Just(true)],
     )
-        .prop_map(|(max_file_size, keys, reqs, seg_mode, cuts, gap_us, depth, use_client, late_reader)| NetCase {
+        .prop_map(|(max_file_size, keys, reqs, seg_mode, cuts, gap_us, depth, use_client, late_reader, sync_each_segment)| NetCase {
             max_file_size,
             keys,
             reqs,
@@ -85,6 +90,7 @@ fn strategy(tier: Tier) -> BoxedStrategy<NetCase> {
             depth,
             use_client,
             late_reader,
+            sync_each_segment,
         })
         .boxed()
 }
@@ -234,8 +240,32 @@ fn run_raw(c: &NetCase, addr: &str, model: &mut BTreeMap<Vec<u8>, Vec<u8>>, out:
                 split_request = true;
             }
         }
-        cl.send_segments(&segs, c.gap_us as u64).map_err(|e| ("send-failed".to_string(), e))?;
-        let got = cl.read_replies(batch.len(), Duration::from_secs(10)).map_err(|e| {
+        let mut got_early: Vec<F> = Vec::new();
+        if c.sync_each_segment && segs.len() <= 400 {
+            // after each segment, the replies to every completely sent request must arrive even
+            // though the first bytes of the next request may already be on the wire
+            let mut sent = 0usize;
+            for sgm in &segs {
+                cl.send(sgm).map_err(|e| ("send-failed".to_string(), e))?;
+                sent += sgm.len();
+                let complete = ends.iter().filter(|e| **e <= sent).count();
+                if complete > got_early.len() {
+                    let more = cl.read_replies(complete - got_early.len(), Duration::from_secs(10)).map_err(|e| {
+                        if e.starts_with("timeout") {
+                            ("timeout".to_string(), format!("requests #{}..: {} request(s) were sent completely (followed by {} byte(s) of the next one) but: {}", i, complete, sent - ends[complete - 1], e))
+                        } else {
+                            ("reply-stream-broken".to_string(), format!("requests #{}..: {}", i, e))
+                        }
+                    })?;
+                    got_early.extend(more);
+                }
+            }
+            out.label("reply-awaited-after-every-segment");
+        } else {
+            cl.send_segments(&segs, c.gap_us as u64).map_err(|e| ("send-failed".to_string(), e))?;
+        }
+        let need = batch.len() - got_early.len();
+        let got = cl.read_replies(need, Duration::from_secs(10)).map(|rest| { let mut v = got_early.clone(); v.extend(rest); v }).map_err(|e| {
             if e.starts_with("timeout") {
                 ("timeout".to_string(), format!("requests #{}..#{}: {}", i, i + batch.len(), e))
             } else {
@@ -397,7 +427,7 @@ pub fn prop() -> Prop<NetCase> {
     Prop {
         id: "C06",
         level: "exploration",
-        rule: "Cases: a request list of 1-30 commands (quick; 60 thorough) over SET/GET/DEL with repeated and absent keys, keys arbitrary UTF-8 (empty, multi-byte, containing CR/LF/NUL), values arbitrary bytes up to 70 KiB (1 MiB thorough), a segmentation plan for the request bytes (all at once / one byte per segment / generated cut points / cuts at and next to every CRLF) sent with TCP_NODELAY and a generated gap, and a pipelining depth 1-30. A fresh store and an in-process server per case; a raw socket client sends the bytes, then (a quarter of the cases) a late reader sets a 8-300 KB value and pipelines 40-139 GETs of it before reading anything, so that the server writes into full socket buffers, then (half of the cases) the crate's own net::Client runs the list again. Oracle: the received bytes equal, byte for byte, the concatenation of a reference encoder's encodings of the model's answers (+OK, bulk or $-1, :n with each key counted as it is deleted in turn), one reply per request in order, and afterwards the store read through a Handle equals the model. Non-trivial: at least one request split across segments and (pipelining depth >= 2 or a value containing CR, LF or NUL) and a multi-key DEL; distinct = distinct hash of the case.",
+        rule: "Cases: a request list of 1-30 commands (quick; 60 thorough) over SET/GET/DEL with repeated and absent keys, keys arbitrary UTF-8 (empty, multi-byte, containing CR/LF/NUL), values arbitrary bytes up to 70 KiB (1 MiB thorough), a segmentation plan for the request bytes (all at once / one byte per segment / generated cut points / cuts at and next to every CRLF) sent with TCP_NODELAY and a generated gap, a pipelining depth 1-30, and (a third of the cases) a mode that awaits, after every segment, the replies to all completely sent requests while the first bytes of the next request are already out. A fresh store and an in-process server per case; a raw socket client sends the bytes, then (a quarter of the cases) a late reader sets a 8-300 KB value and pipelines 40-139 GETs of it before reading anything, so that the server writes into full socket buffers, then (half of the cases) the crate's own net::Client runs the list again. Oracle: the received bytes equal, byte for byte, the concatenation of a reference encoder's encodings of the model's answers (+OK, bulk or $-1, :n with each key counted as it is deleted in turn), one reply per request in order, and afterwards the store read through a Handle equals the model. Non-trivial: at least one request split across segments and (pipelining depth >= 2 or a value containing CR, LF or NUL) and a multi-key DEL; distinct = distinct hash of the case.",
         assumptions: &[
             "only well-formed upper-case commands (the only ones the server accepts)",
             "TCP may coalesce segments; that affects sensitivity only (C08 controls chunking exactly)",
